@@ -248,7 +248,8 @@ def run(ctx, rep):
                     # the inserted value is the module the run returned
                     okv = any(o == ("call", r.bb) and "@Module" in fs for (o, fs) in val)
                     cl = clones_on_trace(p, op_local(c.args[2]), [r])
-                    shared = all(x.res and mir.strip_generics(x.res).startswith("<gc::Gc<T> as core::clone::Clone>") for x in cl)
+                    # a value that is not the run's result at all (a freshly allocated copy, say) is not shared either
+                    shared = okv and all(x.res and mir.strip_generics(x.res).startswith("<gc::Gc<T> as core::clone::Clone>") for x in cl)
                     rep.ob("C11.insert-after-run", "the inserted value is the module returned by the run", "ok" if okv else "violated",
                            "value derives from %s" % sorted(str(x) for x in val), c.span, fn=p.path)
                     rep.ob("C11.shared-instance", "inserted module is copied by Gc::clone only", "ok" if shared else "violated",
